@@ -2,6 +2,9 @@ package checks
 
 import (
 	"bytes"
+	"fmt"
+
+	"github.com/cuteLittleDevil/go-jt808/service"
 
 	"verif/harness/internal/core"
 )
@@ -198,6 +201,70 @@ func c04Worker(c *core.Collector, x *Ctx) {
 		}
 		c.Count("maximal_size_frames", 1)
 	})
+	// (4) ONE parser for a long time: tens of megabytes of big and small frames through the buffered path in reads of every size,
+	// with the read boundaries drifting over every position of the frames. Lean oracle (no per-read stability pass): the
+	// sequence of (ID, serial, body hash) extracted must equal the sequence sent.
+	core.ParallelFor(c.N(8, 16), ncpu(), func(li int) {
+		target := c.N(40, 160) << 20
+		r := core.NewRand(c.Seed, "c04long", uint64(li))
+		vp := service.NewVerifParser()
+		type exp struct {
+			id, serial uint16
+			h          uint64
+		}
+		var want []exp
+		var pending []byte
+		sent, got, nframes := 0, 0, 0
+		serial := uint16(0)
+		bad := ""
+		for sent < target && bad == "" {
+			// refill the outgoing byte queue
+			for len(pending) < 4096 {
+				serial++
+				var body []byte
+				switch r.Intn(5) {
+				case 0:
+					body = nil
+				case 1:
+					body = c04Body(r, 2, 28)
+				default:
+					body = c04Body(r, 1, 1023-r.Intn(8)) // maximal wire size
+				}
+				id := core.Pick(r, []uint16{0x0002, 0x0200, 0x0900})
+				pending = append(pending, hookFrameV(nframes%2 == 1, id, serial, false, 0, 0, body)...)
+				want = append(want, exp{id, serial, core.HashBytes(body)})
+				nframes++
+			}
+			n := 1 + r.Intn(1023)
+			if r.Chance(1, 3) || li%4 == 3 {
+				n = 1023 // (every fourth parser: maximal reads only, as a fast sender produces them)
+			}
+			msgs, err := vp.Feed(pending[:n])
+			pending = pending[n:]
+			sent += n
+			if err != nil {
+				bad = "stream|parser returned an error on a valid stream: " + core.NormPanic(err.Error())
+				break
+			}
+			for _, m := range msgs {
+				if got >= len(want) || m.ID != want[got].id || m.Serial != want[got].serial || core.HashBytes(m.Body) != want[got].h {
+					bad = "stream|message extracted from a long-lived parser differs from the frame that was sent"
+					break
+				}
+				got++
+			}
+			if len(want) > 4096 && got > 2048 { // keep the expectation window small
+				want = want[2048:]
+				got -= 2048
+			}
+		}
+		c.Evals(int64(nframes))
+		c.Count("long_lived_parser_megabytes", int64(sent>>20))
+		if bad != "" {
+			c.Violate(bad, fmt.Sprintf("after %d bytes (%d frames) through one parser", sent, nframes), map[string]any{"bytes_fed": sent, "frames": nframes})
+		}
+	})
+	c.Floor("long_lived_parser_megabytes", 200)
 	c.Floor("maximal_size_frames", 10)
 	c.Floor("streams_with_exhaustive_1_and_2_cuts", 10)
 }
